@@ -93,6 +93,11 @@ def same_value(a, b):
 
 def eval_case(case):
     cli.warm()
+    if "seed" in case and "tasks" not in case:
+        # payloads are generated inside the worker (an 8 MiB chunk must not travel through the pool)
+        seed_case = dict(case)
+        case = gen_case(common.rng_for("c10case", case["seed"]), case["tier"])
+        case["seed_case"] = seed_case
     out = {"sig": common.short_hash([case["mode"], case["expect"], [(t["args"], sorted(map(str, t["options"].items()))) for t in case["tasks"]]]),
            "nontrivial": False, "reach": {}, "violations": [], "inconclusive": [], "sets": {}}
     R = out["reach"]
@@ -109,7 +114,7 @@ def eval_case(case):
         evs = pr.events()
         slim = {"tasks": [{k: t[k] for k in ("id", "kind", "deps", "par", "args", "options")} for t in case["tasks"]], "mode": case["mode"], "jobs": case["jobs"],
                 "scripts": {k: {"exit": v["exit"], "steps": [[s[0], s[1], "<%d bytes>" % len(base64.b64decode(s[2]))] if s[0] in ("out",) else s[:2] for s in v["steps"]]} for k, v in case["scripts"].items()}}
-        W = {"engine": "E1", "case_summary": slim, "case": case if sum(len(v["out"]) + len(v["err"]) for v in case["expect"].values()) < 200000 else None, "result": cli.brief(r)}
+        W = {"engine": "E1", "case_summary": slim, "case": case.get("seed_case") or (case if sum(len(v["out"]) + len(v["err"]) for v in case["expect"].values()) < 200000 else None), "result": cli.brief(r)}
         if r["timed_out"]:
             out["inconclusive"].append({"why": "cond run timed out (watchdog)", "detail": cli.brief(r)})
             return out
@@ -200,7 +205,7 @@ def main(tier, n=None):
                        "bytes written by a lingering grandchild that inherited the pipe count as written by the command"]
     rng = common.rng_for("c10", common.base_seed())
     total = n or (500 if tier == "quick" else 5000)
-    cases = [gen_case(rng, tier) for _ in range(total)]
+    cases = [{"seed": rng.randrange(1 << 40), "tier": tier} for _ in range(total)]
     cli.warm()
     res = common.parallel_map(eval_case, cases, timeout=900)
     rep.merge_pool(res, cases)
